@@ -175,6 +175,9 @@ func genWorld(t *rapid.T, g WorldGen) World {
 		r := simkit.GenRegion(t, stores, rg)
 		if w.TiFlashLearners > 0 && !(odd && simkit.Pct(t, 50, "noLearners")) {
 			for j, s := range rapid.Permutation(flash).Draw(t, "learnerStores")[:w.TiFlashLearners] {
+				if r.PeerOnStore(s) != nil {
+					continue // degenerate cluster (every store carries an exclusive label): one peer per store
+				}
 				r.Peers = append(r.Peers, simkit.PeerSpec{ID: r.ID + 50 + uint64(j), Store: s, Role: simkit.Learner})
 			}
 		}
@@ -214,7 +217,27 @@ type live struct {
 	order  []uint64 // region ids in spec order
 }
 
+// errUnsound: the case data is not a sound input (only a hand-edited or stale
+// replay file can contain one); such a case is inconclusive, never a violation.
+var errUnsound = fmt.Errorf("unsound case")
+
+func (w *World) sound() bool {
+	for i := range w.Regions {
+		seen := map[uint64]bool{}
+		for _, p := range w.Regions[i].Peers {
+			if seen[p.Store] || w.Cluster.Store(p.Store) == nil {
+				return false
+			}
+			seen[p.Store] = true
+		}
+	}
+	return len(w.Regions) > 0
+}
+
 func build(w *World) (*live, error) {
+	if !w.sound() {
+		return nil, errUnsound
+	}
 	ctx, cancelCtx := context.WithCancel(context.Background())
 	mc, cancel := simkit.Build(ctx, w.Cluster)
 	l := &live{w: w, mc: mc, ctx: ctx, sims: map[uint64]*simkit.Region{}}
